@@ -10,7 +10,7 @@ RULE = ("untyped grammar-generated programs (depth <= 8) over every operator, ma
         "from a hostile pool (i64/u64 extremes, NaN, infinities, subnormals, empty / non-ASCII strings and bytes, "
         "nested collections, durations and timestamps up to chrono's limits, function values); exhaustively all "
         "ordered pairs of the pool under + - * / % == != < <= > >= and partial_cmp applied directly to Value and "
-        "inside programs; every built-in on every pool value in both call styles; every built-in and typed extractor on digit runs of 1-1200 digits in every numeric / duration / timestamp position and on long non-ASCII texts at every byte alignment, alone and inside wrongly typed receivers; the only oracle is totality "
+        "inside programs; every built-in on every pool value in both call styles; every built-in and typed extractor on digit runs of 1-1200 digits in every numeric / duration / timestamp position and on long non-ASCII texts at every byte alignment, alone and inside wrongly typed receivers; every pair of strings / byte strings / lists of length <= 3 over a 3-unit alphabet under contains / startsWith / endsWith / in / matches / + / index; the only oracle is totality "
         "(value or ExecutionError; no panic / abort / hang); non-trivial = program with >= 2 operators or an "
         "extreme operand; distinct = distinct (source, context) / value pair")
 ASSUMPTIONS = ["driver built with overflow checks and debug assertions on (profile mon), 8 MiB stack",
@@ -36,6 +36,8 @@ def units(tier, seed):
     us.append(('builtins', 1))
     for i in range(4):
         us.append(('textargs', i))
+    us.append(('substr', 0))
+    us.append(('substr', 1))
     for i in range(32 if tier == 'quick' else 320):
         us.append(('programs', i))
     return us
@@ -156,6 +158,35 @@ def run_unit(unit, drv, res, seed, tier):
                 res.count("outcome:" + (o[1] if o[0] == 'err' else o[0]))
         res.exhaustive_done['builtins-x-pool'] = True
         res.sample({"src": cases[11]["src"], "vars": cases[11]["vars"]}, cap=1)
+    elif kind == 'substr':
+        # every pair of short strings / byte strings / lists over a tiny alphabet under the searching and slicing
+        # built-ins and operators (needle longer than the haystack, needle's first unit near the end, empty ones,
+        # multi-byte units): scanning code that slices by offsets is exercised at every overlap
+        import itertools as _it
+        units_s = ['a', 'b', 'é']
+        strs = [''.join(c) for n in range(0, 4) for c in _it.product(units_s, repeat=n)]
+        cases = []
+        idx = 0
+        for a in strs:
+            for b in strs:
+                idx += 1
+                if idx % 2 != unit[1]:
+                    continue
+                for mk in (lambda t: ('s', t), lambda t: ('y', t.encode('utf-8')), lambda t: ('l', [('s', ch) for ch in t])):
+                    va, vb = mk(a), mk(b)
+                    for src in ("a.contains(b)", "a.startsWith(b)", "a.endsWith(b)", "b in a", "a + b", "a == b", "a < b", "a.matches(b)",
+                                "contains(a, b)", "a[size(b)]", "size(a + b) - size(b)"):
+                        if va[0] == 'l' and src in ("a.startsWith(b)", "a.endsWith(b)", "a.matches(b)", "a < b") and idx % 7:
+                            continue
+                        cases.append(exec_case(len(cases), src, [("a", va), ("b", vb)]))
+        for partc in chunks(cases, 8000):
+            out = drv.run(partc, 'substr')
+            for c, r in zip(partc, out):
+                res.evaluations += 1
+                res.nt(c["src"] + str(c.get("vars")))
+                o = check_total(res, c, r, 'searching / slicing built-in on a pair of short sequences')
+                res.count("substr_outcome:" + (o[1] if o[0] == 'err' else o[0]))
+        res.exhaustive_done['sequence-pairs-len-le-3-x-search-built-ins'] = True
     elif kind == 'textargs':
         # text-consuming built-ins and every typed extractor on texts that stress their parsers and their error
         # paths: digit runs beyond every machine width (i64, u64, i128, f64) in every numeric / duration /
